@@ -62,6 +62,8 @@ def systematic_pool():
         name_or_attr=Rule([Alt([n("x", ("rule", "attr"))], "x"), Alt([n("x", ("NAME",))], "('n',)")], memo=True),
         top=Rule([Alt([n("x", ("rule", "attr"))], "('top', x)"), Alt([n("x", ("NAME",))], "('nm',)")]))
     add("left_rec_leader_memo", top=Rule([Alt([n("l", ("rule", "top")), A], "('L', l)"), Alt([B], "('B',)")], memo=True))
+    add("rule_is_group_with_action", top=Rule([Alt([("group", [Alt([C, A]), Alt([B])])], "('t0',)")]))
+    add("rule_is_group_without_action", top=Rule([Alt([("group", [Alt([C, A], "('ca',)"), Alt([B], "('b',)")])])]))
     add("terminals", top=Rule([Alt([n("k", ("NAME",)), A, n("v", ("NUMBER",))], "('kv',)"), Alt([n("v", ("NUMBER",))], "('v',)"), Alt([n("k", ("NAME",))], "('k',)")]))
     add("opt_group_alts", top=Rule([Alt([n("o", ("opt", ("group", [Alt([A, B]), Alt([A])]))), C], "('o', o is not None)")]))
     add("look_group", top=Rule([Alt([("pos", ("group", [Alt([A, B]), Alt([C])])), n("t", ("group", [Alt([A]), Alt([C])]))], "('lg',)"), Alt([A], "('a',)")]))
